@@ -125,7 +125,7 @@ def run_tree(rec, tier, seed, ti, spec, other):
                    ("hashseed-random", dict(hashseed="random")),
                    ("walk-shuffle-a", dict(walk_seed=11 + ti)), ("walk-shuffle-b", dict(walk_seed=977 + ti, hashseed="5")),
                    ("same-instance-twice", dict(mode="twice-same-instance")), ("new-instance-twice", dict(mode="twice-new-instance")),
-                   ("after-failed-run", dict(mode="failed-then-good")),
+                   ("after-failed-run", dict(mode="failed-then-good")), ("after-runs-that-failed-reading-the-tree", dict(mode="failed-index-then-good")),
                    ("relative-roots", dict(mode="relative-roots")), ("dot-root", dict(mode="dot-root")), ("unnormalised-roots", dict(mode="unnormalised-roots")),
                    ("symlinked-roots", dict(mode="symlinked-roots")),
                    ("twice-with-clean-between", dict(mode="twice-with-clean-between"))]
